@@ -2,7 +2,7 @@
 (* Property-level verdict on one run of the real realign_gaf under the deterministic scheduler,    *)
 (* used when the run did not follow Realign.tla step for step (a differently structured but        *)
 (* possibly correct parent): nothing about the parent's calls is assumed, only what C11 / C13      *)
-(* state about the outcome.  c.R records; c.faults worker faults injected; c.end how the command   *)
+(* state about the outcome.  c.R records; c.faults worker faults injected, c.early of them before the worker's end-of-batch marker had left it; c.end how the command   *)
 (* ended; c.prios the priorities (1-based input positions) of the written records in order;        *)
 (* c.lines / c.ref the written text and the single-core reference.                                  *)
 EXTENDS Integers, Sequences, TLC, Json, IOUtils
@@ -16,6 +16,7 @@ Verdict(c) ==
   ELSE IF c.end = "finished" /\ c.prios # Ident(c.R) THEN
        (IF c.faults > 0 THEN "success_reported_for_incomplete_output"
         ELSE IF Len(c.prios) < c.R THEN "records_dropped" ELSE "records_duplicated_or_reordered")
+  ELSE IF c.end = "finished" /\ c.early > 0 THEN "success_reported_although_a_worker_died_in_its_batch"
   ELSE IF c.end = "finished" /\ c.lines # c.ref THEN "differs_from_single_core"
   ELSE IF c.end \notin {"finished", "aborted"} THEN "unexpected_end"
   ELSE "ok"
